@@ -308,3 +308,40 @@ impl Family for FArray {
         module(vec![("main", func(&[], cards)), two])
     }
 }
+
+// ------------------------------------------------------------------------------------------------
+
+/// Infinite real literals (legal source values; YAML writes them as `.inf` / `-.inf`): as a global's
+/// value, as either operand of a comparison / an addition, in a callee, in a submodule, next to
+/// ordinary finite literals. No NaN anywhere, so the module has a well-defined image.
+pub struct FInfLiterals;
+
+impl FInfLiterals {
+    const SHAPES: u64 = 6;
+}
+
+impl Family for FInfLiterals {
+    fn name(&self) -> &'static str {
+        "F-inf-literals"
+    }
+    fn len(&self) -> u64 {
+        3 * Self::SHAPES
+    }
+    fn case(&self, idx: u64) -> Module {
+        let lit = |k: u64| match k {
+            0 => C::Float(f64::INFINITY),
+            1 => C::Float(f64::NEG_INFINITY),
+            _ => C::Float(f64::MAX),
+        };
+        let x = lit(idx % 3);
+        let y = lit((idx + 1) % 3);
+        match idx / 3 {
+            0 => module(vec![("main", func(&[], vec![sg("g", x)]))]),
+            1 => module(vec![("main", func(&[], vec![sg("g", bin(BinOp::Less, int(1), x.clone())), sg("h", bin(BinOp::Less, x, C::Float(1.5)))]))]),
+            2 => module(vec![("main", func(&[], vec![sg("g", add(x, int(1))), sg("h", y)]))]),
+            3 => module(vec![("main", func(&[], vec![sg("g", call("f", vec![int(2)]))])), ("f", func(&["p"], vec![C::Return(b(bin(BinOp::Less, rv("p"), x)))]))]),
+            4 => module(vec![("main", func(&[], vec![sv("l", x), sg("g", bin(BinOp::Equals, rv("l"), y)), sg("h", rv("l"))]))]),
+            _ => Module { submodules: vec![("a".into(), module(vec![("f", func(&[], vec![C::Return(b(x))]))]))], functions: vec![("main".into(), func(&[], vec![sg("g", call("a.f", vec![]))]))], imports: vec![] },
+        }
+    }
+}
